@@ -95,5 +95,6 @@ void harness(void) {
   VP_REACH("normal return");
 }
 ''']
-    return [Harness('C05.WriteMessage', 'C05', parts, enforce='WriteMessage', loop_contracts=True, expect_loop_obligations=2,
+    from specs import C05_writer
+    return C05_writer.harnesses() + [Harness('C05.WriteMessage', 'C05', parts, enforce='WriteMessage', loop_contracts=True, expect_loop_obligations=2,
                     stubs=['fputc / fwrite (ghost output model)'], timeout=600, replay=replay)]
